@@ -18,10 +18,21 @@ no term costs); a share of the recovery cases sets non-uniform RTParserBuilder::
 on both the parse_actions and the parse_map builder.  The implementation
 has to match the mirror of today's code or the mirror of the repaired code.
 
+Determinism of the applied repair (/repo ca69cd1, REPAIR_ORDER_FIXED): the two modes run the same Parser::lr with the
+same recoverer; theories/C08/Det*.v: given ONE recoverer function (lexemes, laidx, parse stack) -> applied sequence the
+generic-mode mirror returns exactly the erased tree, errors and applied sequences of the action-mode mirror, on every
+grammar, table and input (actions_equal_generic_same_recoverer), and two recoverers that differ at one tied
+configuration give different trees (actions_differ_generic_if_recoverer_differs_refuted: the pinned defect, where
+repairs()[0] was drawn in hash order per parse).  The check demands the function: for EVERY erroneous input
+parse_actions and parse_map must report the same errors with the same ORDERED repairs() lists and return the same
+tree, and DET_ROUNDS further runs of each mode in the same process must reproduce the first run.  The generic-mode
+mirror (run_generic_fixed_f) is tied to parse_map like the action-mode mirrors are to parse_actions.
+
 Failing-input search (independent of the mirrors): from the implementation's own log
 and returned tree recompute post-order, arguments, production symbols, parameter,
 leaves, and the hull span of every call.
 """
+import os
 import random
 import zlib
 from vlib import core
@@ -29,10 +40,23 @@ from gen import grammars as G
 
 MAGIC = "77"
 
+# /repo ca69cd1: simplify_repairs deduplicates in insertion order and sorts stably, so repairs()[0] — the sequence that is
+# replayed onto the value stack — is a function of grammar, table, costs and input.  True: any difference between
+# parse_actions and parse_map (or between two runs of one mode) in the reported errors, the ORDER of a repairs() list or the
+# tree is a violation.  False (the code before the fix): equally ranked sequences may come in any order, only the SETS offered
+# are compared and the trees only when the same sequences were applied.
+REPAIR_ORDER_FIXED = True
+if core.SCRATCH and os.environ.get("GV_C08_REPAIR_ORDER_FIXED") in ("0", "1"):      # mutation-testing aid only
+    REPAIR_ORDER_FIXED = os.environ["GV_C08_REPAIR_ORDER_FIXED"] == "1"
+DET_ROUNDS = 4            # further runs of EACH mode per erroneous input, alternating, in one process
+
 KEY_EMPTY = ("span of a production deriving no lexeme is copied from the previous stack entry "
              "instead of being zero-length")
 KEY_LEAD = ("span of a production that begins with a subtree deriving no lexeme starts where that subtree's "
             "span starts (previous stack entry, or 0) instead of at its first lexeme")
+
+KEY_ORDER = ("the repair sequence applied after an error (repairs()[0]) is picked in hash order among the equally ranked ones: "
+             "parse_actions and parse_map, or two runs of one mode, return different trees for the same input")
 
 CORPUS = [
     # the witnesses of DESIGN §9 (text positions given explicitly)
@@ -100,6 +124,80 @@ CORPUS_COSTS = [
      [[("n", 0, 1), ("n", 2, 3)], [("(", 0, 1), ("n", 2, 3)], [("n", 0, 1), ("+", 2, 3), ("+", 4, 5), ("n", 6, 7)],
       [("n", 0, 1), (")", 2, 3)], [("+", 0, 1)]]),
 ]
+
+
+# EQUALLY RANKED REPAIRS (recovery on): the error has two or more repair sequences of the first rank (same %avoid_insert class,
+# same length), so that repairs()[0] — the one replayed onto the value stack, hence the tree — is picked among equals.  The first
+# entry is the grammar of the audit that found the defect fixed by /repo ca69cd1 (`a c`: B(b) in one mode, B(d) in the other).
+CORPUS_TIES = [
+    ("%start S\n%%\nS: 'a' B 'c';\nB: 'b' | 'd';\n",
+     [[("a", 0, 1), ("c", 2, 3)], [("a", 0, 1)], [("c", 0, 1)], [], [("a", 0, 1), ("c", 2, 3), ("c", 4, 5)]]),
+    ("%start S\n%%\nS: 'a' B 'c';\nB: 'b0' | 'b1' | 'b2' | 'b3' | 'b4' | 'b5';\n",
+     [[("a", 0, 1), ("c", 2, 3)], [("a", 1, 2)], [("c", 3, 4)], [("a", 0, 1), ("a", 2, 3), ("c", 4, 5)]]),
+    ("%start S\n%avoid_insert 'b0' 'b1'\n%%\nS: 'a' B 'c';\nB: 'b0' | 'b1' | 'b2' | 'b3';\n",
+     [[("a", 0, 1), ("c", 2, 3)], [("a", 0, 1)], [("c", 2, 3)]]),
+    ("%start S\n%avoid_insert 'b0' 'b1'\n%%\nS: 'a' B 'c';\nB: 'b0' | 'b1';\n",
+     [[("a", 0, 1), ("c", 2, 3)], [("a", 0, 1)], [("c", 2, 3)]]),
+    ("%start S\n%%\nS: L;\nL: L I | ;\nI: '(' X ')' | '[' X ')' | '{' X ')';\nX: 'x' | 'y' | I;\n",
+     [[("x", 0, 1), (")", 2, 3)], [("(", 0, 1), (")", 2, 3)], [("[", 0, 1), ("x", 1, 2), (")", 2, 3), ("y", 4, 5), (")", 6, 7)],
+      [("(", 0, 1), ("{", 2, 3), (")", 4, 5), (")", 6, 7)], [(")", 0, 1)]]),
+]
+
+
+def tie_family(rng):
+    """-> (kind, yacc source, token-name sentences with an error whose repair is a choice among equals)"""
+    kind = rng.choice(["alt", "alt", "alt2", "list", "open", "open", "avoid", "avoid"])
+    if kind in ("alt", "alt2", "list", "avoid"):
+        k = rng.randint(2, 6)
+        bs = ["b%d" % i for i in range(k)]
+        head = "%start S\n"
+        if kind == "avoid":
+            # a pair (or more) of avoided alternatives: the tie is among the others, or among the avoided ones when all are
+            na = rng.choice([2, 2, k, max(2, k - 2)])
+            av = rng.sample(bs, min(na, k))
+            head += "%%avoid_insert %s\n" % " ".join("'%s'" % b for b in av)
+        alts = " | ".join("'%s'" % b for b in bs)
+        if kind == "alt2":
+            body = "S: 'a' B 'c' B 'e';\nB: %s;\n" % alts
+            good = ["a", bs[0], "c", bs[-1], "e"]
+        elif kind == "list":
+            body = "S: 'a' L 'c';\nL: B | L ',' B;\nB: %s;\n" % alts
+            good = ["a", bs[0], ",", bs[-1], ",", rng.choice(bs), "c"]
+        else:
+            body = "S: 'a' B 'c';\nB: %s;\n" % alts
+            good = ["a", rng.choice(bs), "c"]
+        src = head + "%%\n" + body
+        sents = []
+        idx = [i for i, t in enumerate(good) if t in bs]
+        for i in idx:                                  # one alternative missing
+            sents.append(good[:i] + good[i + 1:])
+        sents.append([t for t in good if t not in bs])  # all of them missing
+        for _ in range(rng.randint(2, 4)):             # … and something else wrong as well
+            s2 = [t for j, t in enumerate(good) if not (j in idx and rng.random() < 0.7)]
+            if s2 and rng.random() < 0.6:
+                del s2[rng.randrange(len(s2))]
+            if rng.random() < 0.4:
+                s2.insert(rng.randint(0, len(s2)), rng.choice(["a", "c"] + bs))
+            sents.append(s2)
+        sents.append(good[:1])
+        sents.append(good[-1:])
+        return kind, src, sents
+    # lists with several openers sharing the closer: a missing opener is a choice among them; a missing element among x / y
+    k = rng.randint(2, 4)
+    ops = ["(", "[", "{", "<"][:k]
+    xs = ["x", "y", "z"][:rng.randint(2, 3)]
+    src = ("%%start S\n%%%%\nS: L;\nL: L I | ;\nI: %s;\nX: %s | I;\n"
+           % (" | ".join("'%s' X ')'" % o for o in ops), " | ".join("'%s'" % x for x in xs)))
+    sents = [["x", ")"], [rng.choice(ops), ")"], [rng.choice(ops), "x", ")", rng.choice(xs), ")"],
+             [rng.choice(ops), rng.choice(ops), ")", ")"], [")"], [rng.choice(ops), rng.choice(ops), "x", ")", ")", "y", ")"]]
+    for _ in range(rng.randint(1, 3)):
+        n = rng.randint(1, 3)
+        s2 = []
+        for _ in range(n):
+            s2 += [rng.choice(ops), rng.choice(xs), ")"]
+        del s2[rng.randrange(len(s2))]
+        sents.append(s2)
+    return "open", src, sents
 
 
 def random_costs(rng, ntoks):
@@ -205,7 +303,7 @@ def usable(g):
     return all(not any(c in t for c in ";@ \t\n#") for t in g.tokens)
 
 
-def gen_cases(ctx, n_grammars, n_inputs):
+def gen_cases(ctx, n_grammars, n_inputs, n_ties=0):
     rng = ctx.rng
     cases = []                                    # (src, rec, [inputs], term costs or None)
     for src, costs, inputs in CORPUS_COSTS:
@@ -286,6 +384,19 @@ def gen_cases(ctx, n_grammars, n_inputs):
                 cases.append((src, rec, inps + extra, costs))
             else:
                 cases.append((src, rec, inps + extra))
+    # equally ranked repairs: fixed corpus + family, from a generator of their own (the stream above does not depend on them)
+    for src, inputs in CORPUS_TIES:
+        cases.append((src, 1, inputs))
+        cases.append((src, 1, inputs, [2, 2, 2]))            # uniform but not the default cost: the ties stay
+    trng = random.Random(ctx.rng.getrandbits(32) ^ 0x7e1d)
+    for _ in range(n_ties):
+        kind, src, sents = tie_family(trng)
+        ctx.count("family_ties_" + kind)
+        inps = [place(trng, s) for s in sents]
+        if trng.random() < 0.25:
+            cases.append((src, 1, inps, [trng.choice([2, 3])] * 2))
+        else:
+            cases.append((src, 1, inps))
     return cases
 
 
@@ -294,8 +405,9 @@ def lex_word(l):
 
 
 def case_line(src, rec, inputs, costs=None):
-    return "O %s %d%s ; %s" % (src.encode().hex(), rec, (" costs=" + ",".join(str(c) for c in costs)) if costs else "",
-                               " ; ".join(" ".join(lex_word(l) for l in inp) for inp in inputs))
+    return "O %s %d%s%s ; %s" % (src.encode().hex(), rec, (" costs=" + ",".join(str(c) for c in costs)) if costs else "",
+                                 (" det=%d" % DET_ROUNDS) if rec else "",
+                                 " ; ".join(" ".join(lex_word(l) for l in inp) for inp in inputs))
 
 
 # ---------------------------------------------------------------- parsing of result lines
@@ -308,6 +420,9 @@ class Parse:
         self.ea = []             # raw
         self.ra = []             # per EA: sorted list of ALL repair sequences of that error | None (none / too many)
         self.rg = []             # per EG: the same for the generic mode
+        self.qa = []             # per EA: (first-rank ties, ORDERED list of all repair sequences | None if more than 64) | None
+        self.qg = []             # per EG: the same for the generic mode
+        self.det = None          # ["<rounds>", "same" | "slow" | "cut" | "diff", which, round, hex first, hex other]
         self.ta = None
         self.og = None
         self.eg = []
@@ -338,6 +453,7 @@ def split_impl(line):
         elif t == "EA":
             cur.ea.append(" ".join(s[1:]))
             cur.ra.append(None)
+            cur.qa.append(None)
         elif t == "RA" and cur.ra:
             cur.ra[-1] = None if s[1:2] == ["*"] else sorted(s[1].split("|"))
         elif t == "RG" and cur.rg:
@@ -349,6 +465,13 @@ def split_impl(line):
         elif t == "EG":
             cur.eg.append(" ".join(s[1:]))
             cur.rg.append(None)
+            cur.qg.append(None)
+        elif t == "QA" and cur.qa:
+            cur.qa[-1] = (int(s[1]), None if s[2:3] == ["*"] else s[2].split("|"))
+        elif t == "QG" and cur.qg:
+            cur.qg[-1] = (int(s[1]), None if s[2:3] == ["*"] else s[2].split("|"))
+        elif t == "DET":
+            cur.det = s[1:]
         elif t == "TG":
             cur.tg = " ".join(s[1:])
     return secs, parses
@@ -366,11 +489,14 @@ def split_model(line):
                 k, v = kv.split("=")
                 verdict[k] = v == "1"
         elif t == "IN":
-            cur = {"OA": None, "L": [], "EA": [], "FOA": None, "FL": [], "FEA": []}
+            cur = {"OA": None, "L": [], "EA": [], "FOA": None, "FL": [], "FEA": [], "MF": None, "MN": False, "MG": None, "ME": [],
+                   "MT": None}
             out.append(cur)
-        elif cur is not None and t in ("OA", "FOA"):
+        elif cur is not None and t in ("OA", "FOA", "MF", "MG", "MT"):
             cur[t] = " ".join(s[1:])
-        elif cur is not None and t in ("L", "EA", "FL", "FEA"):
+        elif cur is not None and t == "MN":
+            cur["MN"] = True
+        elif cur is not None and t in ("L", "EA", "FL", "FEA", "ME"):
             cur[t].append(" ".join(s[1:]))
     return verdict, out
 
@@ -496,15 +622,34 @@ def oracle(prods, p, rec):
                                         "applied repairs" % (lv, ins)))
     elif p.oa is not None and p.oa.startswith("none") and not p.ea:
         probs.append(("errors", "no value and no error"))
-    # ---- generic tree mode: same verdict and tree when the same repairs were applied
+    # ---- generic tree mode
     if p.og is not None and not p.og.startswith("panic") and p.oa is not None and not p.oa.startswith("panic"):
+        # a search the time budget cut short reports an error without repairs and ends the parse: such a run is no witness
+        cut = any(r.split()[2:3] == ["0"] for r in p.ea + p.eg)
+        same_reports = p.ea == p.eg and p.qa == p.qg
         if p.ea == p.eg:
             if (p.ta or "-") != (p.tg or "-"):
                 probs.append(("generic", "actions-built tree %s differs from generic tree %s" % (p.ta, p.tg)))
             if acc != p.og.startswith("acc"):
                 probs.append(("generic", "actions mode %s, generic mode %s" % (p.oa, p.og)))
-        else:
-            # Different repairs were APPLIED (repairs()[0]: the order of an error's repair sequences is hash order).  Up to the
+        if same_reports:
+            pass
+        elif REPAIR_ORDER_FIXED and not cut:
+            # THE DIRECT CLAUSE: both modes run the same recoverer on the same input — same errors, same ORDERED repairs()
+            # lists (repairs()[0] is what is replayed onto the value stack), hence the same tree
+            i = next((j for j, (a, b) in enumerate(zip(p.ea, p.eg)) if a != b or p.qa[j] != p.qg[j]), min(len(p.ea), len(p.eg)))
+            ea_i = p.ea[i] if i < len(p.ea) else "(no further error)"
+            eg_i = p.eg[i] if i < len(p.eg) else "(no further error)"
+            qa_i = "|".join((p.qa[i] or (0, None))[1] or ["?"]) if i < len(p.qa) else "-"
+            qg_i = "|".join((p.qg[i] or (0, None))[1] or ["?"]) if i < len(p.qg) else "-"
+            probs.append(("repair-order", "the same input gets different repairs in the two modes (same grammar, table, recoverer, costs): "
+                                          "error %d is `%s` with repairs() = [%s] under parse_actions and `%s` with repairs() = [%s] under "
+                                          "parse_map; trees %s / %s — the applied repair sequence (repairs()[0]) must be a function of the input"
+                           % (i, ea_i, qa_i, eg_i, qg_i, p.ta, p.tg)))
+        elif cut:
+            facts["budget_cut"] = True
+        if p.ea != p.eg and not (REPAIR_ORDER_FIXED and not cut):
+            # Different repairs were APPLIED (before ca69cd1 the order of an error's repair sequences was hash order).  Up to the
             # first error whose applied sequence differs both parsers are in the same configuration (same lexemes, same stack),
             # and they were given the same recoverer and the same term costs: they must OFFER the same set of sequences there.
             for i, (a, b) in enumerate(zip(p.ea, p.eg)):
@@ -528,6 +673,18 @@ def oracle(prods, p, rec):
                 if wa[3:] != wb[3:]:
                     facts["different_choice_same_offer"] = sa is not None and sb is not None
                     break
+        # ---- the same mode again, DET_ROUNDS times in the same process
+        if p.det and p.det[1:2] == ["diff"] and REPAIR_ORDER_FIXED:
+            which, rnd = p.det[2], p.det[3]
+            first, other = (bytes.fromhex(x).decode(errors="replace") for x in p.det[4:6])
+            if which != "AG":           # (AG = the two first runs: reported above with its details)
+                probs.append(("repair-order", "run %s of %s on the same input in the same process differs from the first run: first `%s`, "
+                                              "then `%s` (verdict, tree, errors with their ordered repairs() lists)"
+                              % (rnd, "parse_actions" if which == "A" else "parse_map", first, other)))
+            elif not any(x[0] == "repair-order" for x in probs):
+                probs.append(("repair-order", "parse_actions and parse_map differ on the same input: `%s` / `%s`" % (first, other)))
+        facts["det"] = p.det[1] if p.det else None
+        facts["ties"] = max([q[0] for q in p.qa if q] or [0])
     if (p.oa or "").startswith("panic") or (p.og or "").startswith("panic"):
         probs.append(("panic", "parse_actions: %s / parse_map: %s" % (p.oa, p.og)))
     return probs, facts
@@ -540,7 +697,7 @@ def run(ctx):
         ctx.oblige(True)
     exe = core.build_harness("c08")
     mexe = core.build_model("c08")
-    cases = gen_cases(ctx, ctx.n(300, 3000), ctx.n(10, 16))
+    cases = gen_cases(ctx, ctx.n(300, 3000), ctx.n(10, 16), ctx.n(40, 400))
     lines = [case_line(*c) for c in cases]
     # the hook GRMTOOLS_VERIF_RECOVERY_BUDGET_MS (cfg grmtools_verif) bounds the time CPCT+ may spend per parse:
     # on ambiguous grammars a parse can otherwise repair thousands of errors until the 500 ms run out
@@ -602,6 +759,8 @@ def run(ctx):
                 ctx.count("parses_with_lexer_supplied_faulty_lexemes")
             replay = {"grammar": src, "recovery": bool(rec), "input_tidx@span": inp, "impl_outcome": p.oa, "impl_log": p.log,
                       "impl_errors": p.ea, "impl_tree": p.ta, "generic_tree": p.tg}
+            if rec and p.ea != p.eg:
+                replay["generic_errors"] = p.eg
             if costs:
                 replay["term_costs_by_token_index"] = tc
                 replay["generic_errors"] = p.eg
@@ -612,6 +771,17 @@ def run(ctx):
                                                                               "same settings"), no_input=True)
                 ok_case = False
             probs = [x for x in probs if x[0] != "generic-repairs-noinput"]
+            if rec and p.ea:
+                ctx.count("erroneous_inputs_with_recovery")
+                if facts.get("ties", 0) >= 2:
+                    ctx.count("erroneous_inputs_with_2_or_more_first_rank_repair_sequences")
+                if facts.get("ties", 0) >= 3:
+                    ctx.count("erroneous_inputs_with_3_or_more_first_rank_repair_sequences")
+                ctx.count("repeat_%s" % (facts.get("det") or "not_run"))
+                if facts.get("det") == "same":
+                    ctx.count("repeated_parses_equal_to_the_first_run", 2 * DET_ROUNDS)
+                if facts.get("budget_cut"):
+                    ctx.count("modes_not_compared_search_cut_by_time_budget")
             if rec and p.ea and p.eg:
                 tag = "_costs" if costs else "_unit"
                 if p.ea == p.eg:
@@ -642,8 +812,37 @@ def run(ctx):
                 # the repaired mirror is proved to satisfy the hull spec: the oracle must agree
                 unknown = unknown + known
                 known = []
+            # ---- correspondence of the function-driven mirrors (C08.DetModel): generic mode vs parse_map
+            gen_ok = True
+            if m["MG"] is not None and p.og is not None and not p.og.startswith("panic"):
+                if m["MG"] == "fuel" or m["FOA"] == "fuel":
+                    ctx.count("generic_mirror_out_of_fuel")
+                elif m["MN"]:
+                    ctx.count("generic_mirror_not_compared_reported_repairs_depend_on_time")
+                else:
+                    ieg = [" ".join(r.split()[:2]) for r in p.eg]
+                    if not (m["MG"] == p.og.split()[0] and (m["MT"] or "-") == (p.tg or "-") and m["ME"] == ieg):
+                        gen_ok = False
+                        ctx.count("generic_mirror_mismatch")
+                        ctx.violation(dict(replay, what="parse_map does not return what the generic-mode mirror returns when it is "
+                                                        "given the repair sequences parse_map reports as applied",
+                                           generic_errors=p.eg, generic_outcome=p.og,
+                                           mirror_generic={"outcome": m["MG"], "tree": m["MT"], "errors": m["ME"]},
+                                           broken_correspondence="C08.DetModel.run_generic_fixed_f vs RTParserBuilder::parse_map"),
+                                      no_input=True)
+                    else:
+                        ctx.count("generic_mirror_matches_parse_map")
+                    if m["MF"] == "0":
+                        gen_ok = False
+                        ctx.violation(dict(replay, what="the action-mode mirror driven by a recoverer function differs from the one "
+                                                        "driven by the oracle list of the same answers (theorem recoverer_run_is_oracle_run)",
+                                           broken_correspondence="C08.DetModel.run_actions_fixed_f vs C08.Model.run_actions_fixed_rec"),
+                                      no_input=True)
+            if not gen_ok:
+                ok_case = False
             for cls, detail in unknown[:2]:
-                ctx.violation(dict(replay, what=detail, violated=cls))
+                # (KEY_ORDER is listed as FIXED in known_findings.json: it matches nothing, the line printed is VIOLATION)
+                ctx.violation(dict(replay, what=detail, violated=cls), known_key=KEY_ORDER if cls == "repair-order" else None)
             for cls, detail in known:
                 known_seen[cls] += 1
                 ctx.violation(dict(replay, what=detail, violated="span"), known_key=KEY_EMPTY if cls == "empty" else KEY_LEAD)
@@ -681,6 +880,10 @@ def run(ctx):
     ctx.coverage["impl_matches_mirror_of_todays_code"] = matched_cur
     ctx.coverage["impl_matches_only_mirror_of_repaired_code"] = matched_fix
     ctx.coverage["known_span_defect_instances"] = known_seen
+    ctx.coverage["repair_order_fixed"] = REPAIR_ORDER_FIXED
+    ctx.coverage["repeat_rounds_per_mode"] = DET_ROUNDS
+    ctx.coverage["erroneous_inputs_with_tied_first_rank_repairs"] = ctx.hist.get("erroneous_inputs_with_2_or_more_first_rank_repair_sequences", 0)
+    ctx.coverage["erroneous_inputs_repeated_and_equal"] = ctx.hist.get("repeat_same", 0)
     ctx.coverage["rule"] = ("grammars: template family with epsilon-only / optional / nested-nullable / list rules in first, middle and last "
                             "position of S and of an inner rule T, nullable-heavy, random (35% empty alternatives), reduced random, "
                             "expression grammars, classic corpus, plus a fixed corpus with the DESIGN witnesses; inputs: the empty input, "
@@ -693,11 +896,20 @@ def run(ctx):
                             "grammar is run with recovery off and with CPCT+ (the mirror replays the repair sequence the implementation "
                             "reports as applied, hence needs no costs); half of the generated recovery cases (and a fixed corpus) give "
                             "BOTH builders (parse_actions, parse_map) a NON-UNIFORM term_costs function (a list of 2..ntokens+1 costs cycled "
-                            "over the token indices, values 1..5 mostly, some 6..40 and 255); actions tree = generic tree is demanded when "
-                            "the same repairs were applied, and when they were not (repairs()[0] is an arbitrary member of the offered set) "
-                            "the SETS of repair sequences offered at the first error with a different choice must be equal. "
+                            "over the token indices, values 1..5 mostly, some 6..40 and 255); for EVERY erroneous input parse_actions and "
+                            "parse_map must report the same errors with the same ORDERED repairs() lists and return the same tree, and "
+                            "{DET} further runs of each mode (alternating, same process, fresh single-shot lexers) must reproduce the first run "
+                            "in verdict, tree, errors and ordered repairs() lists with the Delete/Shift lexemes (REPAIR_ORDER_FIXED; before "
+                            "/repo ca69cd1 only the SETS offered were compared and the trees only when the same sequences had been applied); "
+                            "a family of grammars with EQUALLY RANKED repairs (`S: 'a' B 'c'; B: b0 | … | bk` with 2..6 alternatives, twice in "
+                            "S, in a list; lists whose items have 2..4 openers sharing the closer; %avoid_insert on a pair / a part / all of "
+                            "the alternatives) with the alternative(s) missing gives the inputs counted as "
+                            "erroneous_inputs_with_2_or_more_first_rank_repair_sequences (first rank = the rank key of repairs()[0]: "
+                            "contains an %avoid_insert token, length); the generic-mode mirror run_generic_fixed_f, given the sequences "
+                            "parse_map reports as applied (as a function of the configuration), must return parse_map's verdict, tree and "
+                            "errors. "
                             "case = (grammar, recovery flag, costs); non-trivial = at least one accepted parse in which some "
-                            "action call derives no lexeme; distinct by grammar text + flag")
+                            "action call derives no lexeme; distinct by grammar text + flag").replace("{DET}", str(DET_ROUNDS))
     ctx.assumptions += [
         "actions are modelled freely (call k returns the value k and is logged); any concrete action family is a fold over the log",
         "the recoverer's search is not modelled here (C05-C07): with recovery the mirror replays the repair sequence the implementation "
@@ -711,8 +923,12 @@ def run(ctx):
         "a lexeme the LEXER hands over as faulty (Lexeme::new_faulty, public API) is an input lexeme like any other: it counts as derived by "
         "its production and bounds the span; generated faulty input lexemes have non-zero length so that the leaves oracle can tell them "
         "from the zero-length lexemes the recoverer inserts",
-        "the set of repair sequences offered for an error is a function of the parser configuration, the recoverer and the term costs (only "
-        "their ORDER is arbitrary: HashSet drain in simplify_repairs); a search cut short by the time budget offers nothing and is not compared; "
-        "sets of more than 64 sequences are not compared",
+        "the ordered list of repair sequences reported for an error is a function of the parser configuration, the recoverer and the term "
+        "costs — and of nothing else but the time budget: a search cut short by the budget reports an error WITHOUT repairs and ends the "
+        "parse; two runs that differ are no witness when one of them contains such an error (counted as repeat_cut / "
+        "modes_not_compared_search_cut_by_time_budget), and an input whose first two parses took more than 24 ms is not repeated "
+        "(repeat_slow); lists of more than 64 sequences are compared inside the harness (full signatures), not printed",
+        "the recoverer of the Coq statements is a function (lexemes, laidx, parse stack) -> applied sequence: grammar, table and token costs "
+        "are fixed per parser, and CPCTPlus::recover reads nothing else (astack and spans are only written by the replay)",
         "lexemes come from a replaying lexer with explicit byte spans (start <= end, increasing); lrlex is not involved",
     ]
